@@ -690,6 +690,28 @@ class Interp(object):
             self.stack.pop()
             self.cur_file = old_file
 
+    def call_prefix(self, f, args, kwargs, n_stmts):
+        """Interpret only the first n_stmts top-level statements of a repository function and return its
+        local variables (used to inspect an intermediate value; the rest of the body is decided by other rules)."""
+        f = getattr(f, "f", f)
+        while not isinstance(f, Func) and hasattr(f, "f"):
+            f = f.f
+        node = f.node
+        env = Env(f.env if f.env is not None else f.module.__dict__["env"])
+        self.bind_args(f, node.args, args, kwargs, env)
+        path = f.module.__dict__["path"]
+        self.stack.append((path, f.qualname, f.module.__dict__["name"]))
+        old_file = self.cur_file
+        self.cur_file = path
+        try:
+            sig = self.exec_block(node.body[:n_stmts], env, f.module, f)
+            if sig is not None:
+                raise Unsupported("function returned before the inspected statement")
+            return env.vars
+        finally:
+            self.stack.pop()
+            self.cur_file = old_file
+
     def bind_args(self, f, a, args, kwargs, env):
         v = env.vars
         pos = list(a.posonlyargs) + list(a.args)
